@@ -362,7 +362,17 @@ def check_C10(chk, tier, seed):
         r = rng.fork(f"n{k}")
         fs = [r.choice(FAULTS) for _ in range(r.range(1, 4))]
         cases.append(f"NET {r.below(2)} {r.range(1, 4)} {r.range(1, 6)} {hx(r.below(1 << 32))} {len(fs)} " + " ".join(fs))
-    impl = core.run_sharded([eng.harness, "codec"], eng.prelude, cases, shards=16, timeout=900, env=NET_ENV)
+    # (the storm of 66 000 connections runs on its own, after the others: it occupies the machine's port space and accept queues, which
+    # the scenarios running next to it in other processes would feel - that would be the harness disturbing itself)
+    # (likewise the scenarios with a crowd of peers - a dozen or more - run five at a time, after the small ones: sixteen processes each
+    # opening hundreds of connections at the same moment make connects fail for reasons that have nothing to do with the library)
+    storm_idx = [i for i, c in enumerate(cases) if "reset-storm" in c]
+    crowd_idx = [i for i, c in enumerate(cases) if i not in storm_idx and (int(c.split()[5]) >= 12 or "flood-no-read" in c)]
+    rest_idx = [i for i in range(len(cases)) if i not in storm_idx and i not in crowd_idx]
+    merged = dict(zip(rest_idx, core.run_sharded([eng.harness, "codec"], eng.prelude, [cases[i] for i in rest_idx], shards=16, timeout=900, env=NET_ENV)))
+    merged.update(zip(crowd_idx, core.run_sharded([eng.harness, "codec"], eng.prelude, [cases[i] for i in crowd_idx], shards=5, timeout=900, env=NET_ENV)))
+    merged.update(zip(storm_idx, core.run_sharded([eng.harness, "codec"], eng.prelude, [cases[i] for i in storm_idx], shards=1, timeout=900, env=NET_ENV)))
+    impl = [merged[i] for i in range(len(cases))]
     for i, (c, im) in enumerate(zip(cases, impl)):
         t = c.split()
         chk.case(c, True)
@@ -371,6 +381,8 @@ def check_C10(chk, tier, seed):
         for f in t[6:]:
             chk.count("fault:" + f)
         outs = im.split()[1:] if im.startswith("NET") else None
+        if os.environ.get("VERIF_DEBUG_NET"):
+            print("DEBUG", c[:70], "->", im[:120], flush=True)
         ok = outs is not None and len(outs) == int(t[2]) and all(o == "ok" for o in outs)
         if not ok:
             chk.violation("a well-behaved connection did not receive exactly the answers to its own requests while other peers misbehaved: " + short(im, 300),
